@@ -47,7 +47,7 @@ I2 ==
 
 (* I3: spellings.  One or two rules per side from a wider pool in which neighbouring rules differ in *)
 (* one feature only (port, prefix length, negation, mask of a mark, state list, protocol number)      *)
-PoolX == Pool \cup {Rule("tcp8000", "ACCEPT"), Rule("udp1024y", "ACCEPT"), Rule("tcp8080", "ACCEPT"), Rule("tcp80net", "ACCEPT"), Rule("tcp80h0", "ACCEPT"), Rule("sport", "ACCEPT"),
+PoolX == Pool \cup {Rule("src3", "DROP"), Rule("src22", "DROP"), Rule("net22", "DROP"), Rule("net23", "DROP"), Rule("tcp8000", "ACCEPT"), Rule("udp1024y", "ACCEPT"), Rule("tcp8080", "ACCEPT"), Rule("tcp80net", "ACCEPT"), Rule("tcp80h0", "ACCEPT"), Rule("sport", "ACCEPT"),
                     Rule("lowports", "ACCEPT"), Rule("udp1024x", "ACCEPT"), Rule("vrrp", "ACCEPT"), Rule("proto113", "ACCEPT"),
                     Rule("icmp8", "ACCEPT"), Rule("icmp0", "ACCEPT"), Rule("state1", "ACCEPT"), Rule("possrc", "DROP"),
                     Rule("negold", "DROP"), Rule("markhex", "MARK"), Rule("markmask", "MARK"), Rule("loginfo", "LOG"),
